@@ -21,7 +21,8 @@ META = {
             "per step: in + content = content' + returned + dropped), NoInvention, InsertUsesFreeKey, OthersUntouched, "
             "FindIsFirst/RfindIsLast are invariants / action properties of the models. Every edge of TLC's state graph "
             "(state x operation+arguments -> result, net drops per token, next state) is then executed on the real "
-            "heap / inline / relocatable containers with a drop-counting element type and compared after every step "
+            "heap / inline / relocatable containers (strings also through a SemanticString wrapper: find/rfind, error "
+            "mapping, copy-modify-validate) with a drop-counting element type and compared after every step "
             "(result, len/is_empty/is_full, full contents / iteration order, drops); in the other direction recorded "
             "walks are accepted or rejected by TLC.",
     "note": "Trusted: TLC, the JSON edge dump (one line per transition printed from an ACTION_CONSTRAINT, -workers 1), "
@@ -43,6 +44,11 @@ DRIVER = "drv-containers"
 # container families
 
 FLAVOURS = ["heap", "inline", "reloc"]
+
+
+def flavours_of(kind):
+    # "semantic": SemanticString wrapper (semantic_string! macro, no content restriction) over StaticString
+    return FLAVOURS + (["semantic"] if kind == "string" else [])
 
 KINDS = {
     "vec": {"module": "CVec", "consts": {"MaxSlice": "2"}, "invs": ["TypeOK", "LenBounded"], "trace": "CVecTrace",
@@ -71,43 +77,17 @@ KINDS = {
                         ("rfind", "some"), ("rfind", "none"), ("clear", "ok"), ("destroy", "ok"), ("relocate", "ok")]},
 }
 
-# Genuine defects of /repo found by this check and reported to the coordinator; they belong into
-# /verif/known_findings.json (shared file, not written by the builders). Until they are moved there this
-# list is consulted the same way `vp.Ctx.report` consults known_findings.json: exactly the divergence
-# class with that signature prints KNOWN-FINDING instead of VIOLATION; everything else is a VIOLATION.
-LOCAL_KNOWN = {
-    "slotmap:after-insert_at":
-        "MetaSlotMap::claim_index (slotmap.rs) unlinks a key from the free list without updating "
-        "idx_to_data_free_list_head and without clearing stale links of acquired keys: after insert_at(k) on the "
-        "free-list head, next_free_key()/insert() hand out the LIVE key k (the stored value is overwritten and "
-        "dropped) and the map then reports full with len < capacity; e.g. cap=2: insert_at(0,a); insert(b) -> "
-        "Some(0); insert(c) -> None with len()=1",
-    "slotmap:key-eq-capacity":
-        "SlotMap insert_at/remove/get/contains with key == capacity panic (index out of bounds) instead of returning "
-        "false/None: the bounds checks use `>` instead of `>=` (insert_at, remove) or are missing (get, contains)",
-    "slotmap:cap0":
-        "a SlotMap with capacity 0 starts with free-list head 0: next_free_key() returns Some(0) and insert() panics "
-        "(index out of bounds) instead of returning None",
-    "string:remove-at-len":
-        "String::remove(idx) with idx == len() returns Some(0) (the terminator; StaticString with len == capacity: "
-        "index-out-of-bounds panic) instead of None: the bounds check is `len < idx` instead of `len <= idx`",
-    "string:nul-terminator":
-        "RelocatableString::init never writes a terminator and PolymorphicString::new writes only data[0]; "
-        "insert_bytes_unchecked writes the terminator only if new_len < capacity: a fresh RelocatableString and a FULL "
-        "Relocatable/PolymorphicString are NUL-terminated only if the backing memory happened to be zero "
-        "(as_c_str()/as_bytes_with_nul() over recycled memory are not terminated)",
-    "string:static-full-zero-range":
-        "StaticString with len() == capacity(): remove_range(idx, 0), strip_prefix(b\"\") and strip_suffix(b\"\") panic "
-        "(index out of bounds): remove_range writes the terminator at data[new_len] unconditionally and data has "
-        "only CAPACITY entries",
-}
+# Divergence classes of the driver carry detail ("slotmap:after-insert_at:insert:state"); the signature that is
+# reported (and matched by vp.Ctx.report against /verif/known_findings.json for the running property id) is the
+# stable prefix below where one applies, otherwise the full class. Nothing is suppressed here.
+SIGNATURE_PREFIXES = ["slotmap:after-insert_at", "slotmap:cap0", "string:nul-terminator", "string:static-full-zero-range"]
 
 
-def known_prefix(cls):
-    for k in LOCAL_KNOWN:
+def signature_of(cls):
+    for k in SIGNATURE_PREFIXES:
         if cls == k or cls.startswith(k + ":"):
             return k
-    return None
+    return cls
 
 
 # ------------------------------------------------------------------------------------------------
@@ -295,13 +275,8 @@ def run_jobs(ctx, jobs, workers=6):
         return [f.result() for f in futs]
 
 
-def report(ctx, sig, what, replay):
-    k = known_prefix(sig)
-    if k is not None:
-        if k not in [h[0] for h in ctx.known_hits]:
-            ctx.known_hits.append((k, LOCAL_KNOWN[k]))
-        return
-    ctx.report(vp.Violation(what, replay=replay, signature=sig))
+def report(ctx, cls, what, replay):
+    ctx.report(vp.Violation(what, replay=replay, signature=signature_of(cls)))
 
 
 def digest(ctx, summaries, stats):
@@ -507,7 +482,7 @@ def run(ctx):
         ctx.coverage.setdefault("graphs", {})[kind] = {"states": ns, "edges": ne}
     # ---- 2. lock-step on every flavour and capacity
     for kind in KINDS:
-        for fl in FLAVOURS:
+        for fl in flavours_of(kind):
             for cap in caps:
                 common = ["--avoid-known"]
                 jobs.append(((automata[kind], kind, fl, cap, "cover", []), {}))
